@@ -97,13 +97,14 @@ impl<const PT: u8, const MIN: usize> RtcpPacketWriter for CustomBuilder<PT, MIN>
 // ------------------------------------------------------------------ helper contracts
 
 /// `write_header_unchecked`: V=2, P iff padding > 0, count, PT, length = len/4 - 1, for
-/// every buffer length that is a multiple of 4 in 4..=1024.
-pub fn header_helper<S: Src, const PT: u8>(s: &mut S) {
-    let words = s.range(1, 256);
+/// every buffer length that is a multiple of 4 in 4..=4*WORDS (WORDS = 65536: every value of
+/// the 16-bit length field).
+pub fn header_helper<S: Src, const PT: u8, const WORDS: usize, const BYTES: usize>(s: &mut S) {
+    let words = s.range(1, WORDS);
     let padding = s.u8();
     let count = s.u8();
     s.assume(count <= 31);
-    let mut buf = [0xA5u8; 1024];
+    let mut buf = [0xA5u8; BYTES];
     let n = writer::write_header_unchecked::<Custom<PT, 4>>(padding, count, &mut buf[..4 * words]);
     assert!(n == 4);
     let i = s.upto(3);
@@ -113,7 +114,8 @@ pub fn header_helper<S: Src, const PT: u8>(s: &mut S) {
     assert!(parser::parse_packet_type(&buf) == PT && parser::parse_length(&buf) == 4 * words);
     assert!(parser::parse_padding_bit(&buf) == (padding > 0));
     assert!(buf[4] == 0xA5, "header writer touched the body");
-    vcover!(words == 256, "largest buffer");
+    vcover!(words == WORDS, "largest buffer");
+    vcover!(words == 257, "length field above 255");
 }
 
 /// `write_padding_unchecked`: `padding` bytes = zeros ending in the count, nothing beyond.
@@ -274,8 +276,8 @@ pub fn in_compound<S: Src, const PT: u8, const MIN: usize>(s: &mut S) {
 }
 
 common::register! {
-    q_header_0 = header_helper::<_, 0> => 2,
-    q_header_242 = header_helper::<_, 242> => 2,
+    q_header_0 = header_helper::<_, 0, 2048, 8192> => 2,
+    q_header_242 = header_helper::<_, 242, 2048, 8192> => 2,
     q_padding = padding_helper => 2,
     q_check_192_4 = check_helper::<_, 192, 4, 300> => 2,
     q_check_242_12 = check_helper::<_, 242, 12, 300> => 2,
@@ -286,8 +288,8 @@ common::register! {
     q_unknown_builder_242 = unknown_builder::<_, 242> => 2,
     q_unknown_builder_0 = unknown_builder::<_, 0> => 2,
     q_in_compound = in_compound::<_, 242, 12> => 4,
-    t_header_192 = header_helper::<_, 192> => 2,
-    t_header_255 = header_helper::<_, 255> => 2,
+    t_header_192 = header_helper::<_, 192, 65536, 262144> => 2,
+    t_header_255 = header_helper::<_, 255, 2048, 8192> => 2,
     t_check_0_8 = check_helper::<_, 0, 8, 1100> => 2,
     t_check_242_12 = check_helper::<_, 242, 12, 1100> => 2,
     t_custom_192_8 = custom_roundtrip::<_, 192, 8> => 2,
